@@ -24,6 +24,11 @@ Definition conv_eqb (a b : conv) : bool :=
   | _, _ => false
   end.
 
+(* the conversion found is the documented one, or the C string is passed where a std::string is expected (the C++
+   compiler then applies std::string's converting constructor: the same value) *)
+Definition conv_compat (c e : conv) : bool :=
+  conv_eqb c e || match c, e with Direct, StringFrom => true | _, _ => false end.
+
 (* parameter kinds: type group, indirection, intent *)
 Record pkind := { k_group : string; k_ptrs : string; k_intent : string }.
 
@@ -64,7 +69,7 @@ Fixpoint args_ok (ps : list (string * pkind)) (args : list (conv * string)) : bo
   | [], [] => true
   | (n, k) :: ps', (c, r) :: args' =>
       match expected k with
-      | Some e => conv_eqb c e && String.eqb r n && args_ok ps' args'
+      | Some e => conv_compat c e && String.eqb r n && args_ok ps' args'
       | None => false
       end
   | _, _ => false
@@ -84,7 +89,10 @@ Definition call_ok (w : wrapper) : bool :=
   || (String.eqb (w_kind w) "ctor" && String.eqb (w_call w) "new" && String.eqb (w_this w) "")
   || (String.eqb (w_kind w) "dtor" && String.eqb (w_call w) "delete" && String.eqb (w_this w) "self").
 
-Definition covered (w : wrapper) : bool := forallb (fun p => match expected (snd p) with Some _ => true | None => false end) (w_params w).
+Definition known_kind (w : wrapper) : bool :=
+  existsb (String.eqb (w_kind w)) ["function"; "method"; "static"; "ctor"; "dtor"].
+Definition covered (w : wrapper) : bool :=
+  known_kind w && forallb (fun p => match expected (snd p) with Some _ => true | None => false end) (w_params w).
 
 Definition wrapper_ok (w : wrapper) : bool :=
   Nat.eqb (w_unknown w) 0 && call_ok w && args_ok (w_params w) (w_args w)
